@@ -566,11 +566,11 @@ pub fn run(which: Which, ctx: &mut Ctx) -> Vec<Violation> {
     match which {
         Which::C02 => {
             install_logger(log::LevelFilter::Off);
-            out.extend(run_prop(ctx, "scenario", t.pick(480, 8_000), 300, c02_scenario(false), |ctx, sc| {
+            out.extend(run_prop(ctx, "scenario", t.pick(3_000, 30_000), 300, c02_scenario(false), |ctx, sc| {
                 ctx.sample("scenario", 1, &(sc.batch_size, sc.steps.iter().map(|s| s.len()).collect::<Vec<_>>()));
                 run_scenario(ctx, Which::C02, sc)
             }));
-            out.extend(run_prop(ctx, "scenario-fault", t.pick(160, 2_000), 200, c02_scenario(true), |ctx, sc| run_scenario(ctx, Which::C02, sc)));
+            out.extend(run_prop(ctx, "scenario-fault", t.pick(800, 8_000), 200, c02_scenario(true), |ctx, sc| run_scenario(ctx, Which::C02, sc)));
             // every (batch_size, burst) pair: a burst of exactly k standard requests at batch_size b
             let total = t.pick(64 * 4, 64 * 64);
             let v = run_enum(
@@ -607,7 +607,7 @@ pub fn run(which: Which, ctx: &mut Ctx) -> Vec<Violation> {
         }
         Which::C07 => {
             install_logger(log::LevelFilter::Off);
-            out.extend(run_prop(ctx, "scenario", t.pick(2_400, 40_000), 400, c07_scenario(), |ctx, sc| {
+            out.extend(run_prop(ctx, "scenario", t.pick(16_000, 160_000), 400, c07_scenario(), |ctx, sc| {
                 ctx.sample("scenario", 1, &sc.steps[0].iter().take(3).collect::<Vec<_>>());
                 run_scenario(ctx, Which::C07, sc)
             }));
@@ -648,14 +648,14 @@ pub fn run(which: Which, ctx: &mut Ctx) -> Vec<Violation> {
             let level = level_from_index(ctx.shard);
             install_logger(level);
             ctx.note(format!("shard {} ran at log level {:?}", ctx.shard, level));
-            out.extend(run_prop(ctx, &format!("scenario-{:?}", level), t.pick(2_400, 40_000), 400, c08_scenario(), |ctx, sc| {
+            out.extend(run_prop(ctx, &format!("scenario-{:?}", level), t.pick(18_000, 180_000), 400, c08_scenario(), |ctx, sc| {
                 ctx.sample("scenario", 1, &sc.steps[0].iter().take(3).collect::<Vec<_>>());
                 run_scenario(ctx, Which::C08, sc)
             }));
         }
         Which::C09 => {
             install_logger(log::LevelFilter::Off);
-            out.extend(run_prop(ctx, "history", t.pick(1_200, 20_000), 300, c09_scenario(), |ctx, sc| {
+            out.extend(run_prop(ctx, "history", t.pick(8_000, 80_000), 300, c09_scenario(), |ctx, sc| {
                 ctx.sample("history", 1, &(sc.batch_size, sc.steps.iter().map(|s| s.iter().map(|x| (x.sock, x.d.family())).collect::<Vec<_>>()).collect::<Vec<_>>()));
                 run_scenario(ctx, Which::C09, sc)
             }));
